@@ -12,6 +12,7 @@ import (
 	_ "panmc/checks/c02"
 	_ "panmc/checks/c04"
 	_ "panmc/checks/c05"
+	_ "panmc/checks/c06"
 	_ "panmc/checks/c07"
 	_ "panmc/checks/c09"
 	_ "panmc/checks/c10"
